@@ -3,7 +3,7 @@
    every valid set and every pair of orders).  The writer model Moc.moc_cells and the reader model
    Moc.moc_expand are executable and compared with the UNIQ column actually written and with the
    map read back on every run. *)
-From HS Require Import Prelude Moc MocProofs MocRefine.
+From HS Require Import Prelude Moc MocProofs MocRefine MocReader.
 Open Scope Z_scope.
 
 (* a UNIQ number decodes (floor(log2(u/4))/2, u - 4*4^order) to the order and pixel it encodes *)
@@ -77,6 +77,17 @@ Theorem C17_each_pixel_ends_in_its_coarsest_full_ancestor :
                 fullx mx vs k p /\ forall k', mn <= k' < k -> full mx vs k' p = false.
 Proof. exact moc_cell_is_coarsest_full_ancestor. Qed.
 
+(* the reader works at the finest order PRESENT in the file (coarser than the map's when every pixel was
+   merged): on the sky that makes no difference — a pixel of the original order is valid iff its ancestor
+   at the reader's order is set in the map read back *)
+Theorem C17_reader_order_is_immaterial :
+  forall mx mn (vs : list Z),
+    0 <= mn <= mx -> NoDup vs -> (forall x, In x vs -> 0 <= x < 12 * 4 ^ mx) ->
+    forall x, 0 <= x ->
+      (In x vs <-> In (ancestor mx (moc_max_order (moc_cells mx mn vs)) x)
+                      (moc_expand (moc_max_order (moc_cells mx mn vs)) (moc_cells mx mn vs))).
+Proof. exact reader_at_its_own_order_covers_the_same_sky. Qed.
+
 (* the executable writer + reader reproduce a valid set with full and nearly full cells *)
 Example C17_hypotheses_satisfiable :
   let vs := zrange 16 32 ++ [40; 41; 42] ++ zrange 64 128 in
@@ -94,4 +105,5 @@ Print Assumptions C17_written_cells_cover_exactly_the_valid_pixels.
 Print Assumptions C17_written_cells_pairwise_disjoint.
 Print Assumptions C17_no_cell_coarser_than_the_coverage_order.
 Print Assumptions C17_each_pixel_ends_in_its_coarsest_full_ancestor.
+Print Assumptions C17_reader_order_is_immaterial.
 Print Assumptions C17_hypotheses_satisfiable.
